@@ -1,7 +1,7 @@
 (* C17: the rules evaluated on EVERY specification the current tree ships (Gen/GenSpecs.v is regenerated from the
    .dev files on every check run, so these proofs re-run against what the files say now). *)
 From Coq Require Import List NArith ZArith Bool.
-From PM Require Import Base.Bytes Gen.GenConsts Model.ScriptAst Model.RegexSyn Model.Fmt Model.SpecCheck
+From PM Require Import Base.Bytes Gen.GenConsts Model.ScriptAst Model.RegexSyn Model.Fmt Model.SpecCheck Model.SpecDigest
   Spec.SpecCheckSpec Gen.GenSpecs Proofs.SpecCheckProofs.
 Import ListNotations.
 
@@ -53,3 +53,8 @@ Proof.
   split; [exact (meaning_groups s idx body tr Hok Hin Hr)|].
   exact (spec_ok_login_timeout s Hok).
 Qed.
+
+(* the Coq term of every specification has the fingerprint the translator computed from the reader's tree
+   (and props/C17.py recomputes from the real parser's dump): the term printer of gen_specs.py lost nothing *)
+Lemma shipped_digests : map (fun p => SpecDigest.spec_digest (snd p)) all_specs = spec_digests.
+Proof. vm_compute. reflexivity. Qed.
